@@ -158,6 +158,8 @@ class LineSerial(StubSerial):
         self.receiver_baud = None
         self.unsent = 0          # events (at the tail of pending) that answer a frame still sitting in the output buffer
         self.in_buffer = False
+        self.n_sent = 0          # frames written completely and not discarded from the output buffer
+        self.last_ok = False
         self.babble = None       # (byte, dt): a receiver that never pauses - when nothing is scripted, this byte arrives
 
     def _set_baud(self, v):
@@ -193,7 +195,9 @@ class LineSerial(StubSerial):
         if not self._heard():
             evs = []
         self.pending += evs
-        self.unsent, self.in_buffer = len(evs), True
+        self.unsent, self.in_buffer, self.last_ok = len(evs), True, bool(ok)
+        if ok:
+            self.n_sent += 1
         if self.tx_dt:
             self.clock.ms += self.tx_dt
             self.unsent, self.in_buffer = 0, False
@@ -217,6 +221,8 @@ class LineSerial(StubSerial):
             # the frame written last never left the port: the receiver will not answer it
             if self.unsent:
                 del self.pending[-self.unsent:]
+            if self.last_ok:
+                self.n_sent -= 1
             self.unsent, self.in_buffer = 0, False
             self.trace.append(('X',))
 
